@@ -274,12 +274,12 @@ def trace_core(ctx, prop, runs, reject=0, large_every=None, fan_every=5):
         ctx.violations.append(dict(property=prop, what=f"trace validation: event {ev.get('e')} of run {run['run']} rejected by the specification", replay=rp))
 
 
-def trace_linkage(ctx, runs, max_n=12, only=None):
+def trace_linkage(ctx, runs, max_n=12, only=None, big_every=0):
     """impl -> spec for C17: random Linkage runs recorded from the crate, validated against the merge machine (TraceLinkage),
     one single-worker TLC per (number of inputs, mode)"""
     from concurrent.futures import ThreadPoolExecutor
     tf = os.path.join(ctx.scratch, "linkage-trace")
-    s = hv(ctx, "record-linkage", trace=tf, runs=runs, max_n=max_n)
+    s = hv(ctx, "record-linkage", trace=tf, runs=runs, max_n=max_n, big_every=big_every, big_max=(33 if ctx.quick else 100))
     groups = s["extra"]["groups"]
     idx = s["extra"]["runs"]
     if only:
@@ -305,7 +305,7 @@ def trace_linkage(ctx, runs, max_n=12, only=None):
         start = json.loads(lines[run["first_line"] - 1])
         os.makedirs(REPLAYS, exist_ok=True)
         rp = os.path.join(REPLAYS, f"C17-linkage-seed{ctx.seed}-run{run['run']}.json")
-        json.dump({"cmd": "trace-linkage", "property": "C17", "seed": ctx.seed, "runs": runs, "max_n": max_n, "run": run["run"], "n": g["n"], "mode": g["mode"], "line": line_no, "start": start, "event": ev,
+        json.dump({"cmd": "trace-linkage", "property": "C17", "seed": ctx.seed, "runs": runs, "max_n": max_n, "big_every": big_every, "run": run["run"], "n": g["n"], "mode": g["mode"], "line": line_no, "start": start, "event": ev,
                    "diffs": [f"recorded event {ev.get('e')} (line {line_no} of the {g['n']}/{g['mode']} trace, run {run['run']}) is not a step of the merge machine (TraceLinkage)"]}, open(rp, "w"), indent=1)
         what = f"trace validation: Linkage::{g['mode']} on {g['n']} sets (run {run['run']}): event {json.dumps(ev)[:300]} is not a step of the specification's merge machine; inputs {json.dumps(start)[:400]}"
         ctx.violations.append(dict(property="C17", what=what, replay=rp))
@@ -844,7 +844,7 @@ def check_C17(ctx):
                 "requires: the returned merges are one of the allowed sequences (distance exact, size exact), into_cluster() = cluster(), binary-tree shape, indicies() is a permutation and the "
                 "mention order, the first callback call offers every unordered pair once, union calls it once per merge with the union against every live set.  Union mode is also explored with "
                 "OVERLAPPING inputs (every assignment of non-empty subsets of three weighted items), the arithmetic modes with infinite distances (N = 2, 3) and at N = 5.  impl->spec: random runs recorded "
-                "from the crate (2..12 inputs, tie-free / tied / infinite entries, overlapping sets) are validated step by step against the same machine (spec/trace/TraceLinkage.tla: every recorded merge must be "
+                "from the crate (2..12 inputs, and 31..100 inputs for single / complete / union; tie-free / tied / infinite entries, overlapping sets) are validated step by step against the same machine (spec/trace/TraceLinkage.tla: every recorded merge must be "
                 "a Merge step - a closest pair at the reported distance and size -, leaf order, callback pairs); non-trivial = every case")
     modes = ["single", "average", "union", "overlap3", "single_inf2", "complete_inf2", "average_inf2", "single_inf3", "complete_inf3", "average_inf3", "complete5"]
     if not ctx.quick:
@@ -853,7 +853,7 @@ def check_C17(ctx):
     s = hv(ctx, "replay-linkage", prop="C17", **{"in": concat(ctx, outs, "c17-lines.txt")})
     ctx.traces += s.get("cases", 0)
     # impl -> spec: larger random runs (2..12 inputs, mostly tie-free matrices, overlapping sets in union mode) against the same machine
-    trace_linkage(ctx, 400 if ctx.quick else 6000)
+    trace_linkage(ctx, 400 if ctx.quick else 6000, big_every=(50 if ctx.quick else 40))
     ctx.assumptions += ["distances are small dyadic rationals, exact in f32; ties are allowed and the crate's choice must be one of the spec's"]
     return finish(ctx)
 
@@ -1009,7 +1009,7 @@ def replay(path):
     if v.get("cmd") == "trace-linkage":
         ctx = Ctx("C17", "quick", int(v.get("seed", 1)))
         try:
-            rej = trace_linkage(ctx, int(v["runs"]), int(v.get("max_n", 12)), only=(v["n"], v["mode"]))
+            rej = trace_linkage(ctx, int(v["runs"]), int(v.get("max_n", 12)), only=(v["n"], v["mode"]), big_every=int(v.get("big_every", 0)))
             if rej:
                 log(f"reproduced: the specification rejects the recorded Linkage run")
                 log(f"VIOLATION property=C17 replay={path}")
